@@ -155,7 +155,9 @@ type c04Branch struct {
 	console       bool
 }
 type c04Op struct {
-	kind int // 0 log, 1 Logger.Sync
+	kind int // 0 log, 1 Logger.Sync, 2 the goroutine hits a fault logger (c04_fault.go; not judged)
+	f    c04FOp
+	ef   int // error-path fields added to this (judged) entry: bits of c04errFields
 	fe   int // front end
 	lvl  zapcore.Level
 	msg  string
@@ -179,6 +181,7 @@ type c04Case struct {
 	baseCtx   int
 	sharedCtx int
 	callRefl  bool
+	flt       c04Faults // error-path history around the judged loggers (c04_fault.go)
 	ticks     int
 	seed      uint64
 	class     string
@@ -302,6 +305,9 @@ func c04fields(o c04Op, seq int) []zap.Field {
 			fs = append(fs, zap.Binary("b", []byte(o.msg[:len(o.msg)/7])))
 		}
 	}
+	if o.ef != 0 {
+		fs = append(fs, c04errFields(o.ef, seq, c04pad(o.msg, 3))...)
+	}
 	return fs
 }
 
@@ -338,6 +344,19 @@ func c04log(l *zap.Logger, o c04Op, seq int) {
 		}
 		if o.nf > 5 {
 			kv = append(kv, "y", c04reflMap(seq, "kv"))
+		}
+		// error paths through zap.Any: failing marshaler, reflection failure, panicking Stringer
+		if o.ef&1 != 0 {
+			kv = append(kv, "eo", c04BadObj{n: seq, pad: "kv"})
+		}
+		if o.ef&4 != 0 {
+			kv = append(kv, "ec", make(chan int))
+		}
+		if o.ef&8 != 0 {
+			kv = append(kv, "es", c04PanicStr{n: seq}, "en", (*c04NilStr)(nil))
+		}
+		if o.ef&16 != 0 {
+			kv = append(kv, "ee", c04PanicErr{})
 		}
 		s.Logw(o.lvl, o.msg, kv...)
 	case 4: // sugared, formatted
@@ -452,6 +471,40 @@ func c04run(cs *c04Case, caseNo int) *c04Obs {
 		cores[j] = zapcore.NewCore(c04enc(j, b), ws, zapcore.InfoLevel)
 	}
 	obs.errOut = &c04Rec{id: "errout"}
+	// error-path history (c04_fault.go): fault loggers over failing sinks, and optionally a failing
+	// branch hidden in the judged tee (first or last; nothing is required of it)
+	flt := &cs.flt
+	lives := make([]*c04FLive, len(flt.logs))
+	for i, d := range flt.logs {
+		lives[i] = c04buildFLog(d, fmt.Sprintf("c%d-%d-f%d", cs.seed%100000, caseNo, i), cs.seed+uint64(100+i))
+	}
+	var stopTee func()
+	if flt.tee != 0 {
+		bad, stop := c04teeBad(cs)
+		stopTee = stop
+		if flt.tee == 1 {
+			cores = append([]zapcore.Core{bad}, cores...)
+		} else {
+			cores = append(append([]zapcore.Core{}, cores...), bad)
+		}
+	}
+	var fviol atomic.Value // first unexpected panic of a fault-path call / failed pool probe
+	noteF := func(s string) {
+		if s != "" {
+			fviol.CompareAndSwap(nil, s)
+		}
+	}
+	prologue := func() {
+		for seq, o := range flt.pre {
+			noteF(c04faultOp(lives[o.fl], o, 99, seq))
+		}
+		if len(flt.pre) > 0 {
+			noteF(c04poolProbe(8))
+		}
+	}
+	if !flt.preLate {
+		prologue()
+	}
 	base, shared := c04loggers(cs, zapcore.NewTee(cores...), zap.ErrorOutput(zapcore.Lock(obs.errOut)))
 
 	var wg, tickWg sync.WaitGroup
@@ -459,6 +512,19 @@ func c04run(cs *c04Case, caseNo int) *c04Obs {
 	stopTicks := make(chan struct{})
 	var panics atomic.Int32
 	var panicMsg atomic.Value
+	for k := range flt.conc {
+		wg.Add(1)
+		go func(k int) {
+			defer wg.Done()
+			<-start
+			for seq, o := range flt.conc[k] {
+				noteF(c04faultOp(lives[o.fl], o, 100+k, seq))
+				if seq%4 == 3 {
+					runtime.Gosched()
+				}
+			}
+		}(k)
+	}
 	for g := range cs.th {
 		wg.Add(1)
 		go func(g int) {
@@ -473,13 +539,20 @@ func c04run(cs *c04Case, caseNo int) *c04Obs {
 			l := c04derive(base, shared, g, cs.th[g].deriv)
 			<-start
 			for seq, o := range cs.th[g].ops {
-				if o.kind == 1 {
+				switch o.kind {
+				case 1:
 					_ = l.Sync()
-				} else {
+				case 2:
+					noteF(c04faultOp(lives[o.f.fl], o.f, g, seq))
+				default:
 					c04log(l, o, seq)
 				}
 			}
+			noteF(c04poolProbe(4))
 		}(g)
+	}
+	if flt.preLate {
+		prologue() // while the goroutines derive their loggers
 	}
 	for _, clk := range clocks {
 		tickWg.Add(1)
@@ -513,6 +586,15 @@ func c04run(cs *c04Case, caseNo int) *c04Obs {
 		for _, cl := range closers {
 			cl()
 		}
+		for _, lv := range lives {
+			if lv.stop != nil {
+				lv.stop()
+			}
+		}
+		if stopTee != nil {
+			stopTee()
+		}
+		noteF(c04poolProbe(16))
 		close(done)
 	}()
 	select {
@@ -530,8 +612,44 @@ func c04run(cs *c04Case, caseNo int) *c04Obs {
 	if panics.Load() > 0 {
 		obs.viol = append(obs.viol, fmt.Sprintf("a logging goroutine panicked: %v", panicMsg.Load()))
 	}
-	if len(obs.errOut.buf) > 0 {
+	if flt.tee != 0 {
+		// the failing branch makes CheckedEntry.Write report its write errors; nothing else may appear
+		if ln := c04errOutOnlyInjected(obs.errOut.buf); ln != "" {
+			obs.viol = append(obs.viol, fmt.Sprintf("zap reported an internal error on ErrorOutput other than the injected sink failures: %.200q", ln))
+		}
+	} else if len(obs.errOut.buf) > 0 {
 		obs.viol = append(obs.viol, fmt.Sprintf("zap reported an internal error on ErrorOutput: %.200q", obs.errOut.buf))
+	}
+	if v := fviol.Load(); v != nil {
+		obs.viol = append(obs.viol, v.(string))
+	}
+	// the healthy sinks of the fault loggers: every accepted fault entry exactly once, intact, in order
+	for i, lv := range lives {
+		if lv.noise == nil {
+			continue
+		}
+		want := map[int][]int{}
+		add := func(o c04FOp, tid, seq int) {
+			if o.fl == i && c04fopWrites(o) {
+				want[tid] = append(want[tid], seq)
+			}
+		}
+		for seq, o := range flt.pre {
+			add(o, 99, seq)
+		}
+		for k := range flt.conc {
+			for seq, o := range flt.conc[k] {
+				add(o, 100+k, seq)
+			}
+		}
+		for g := range cs.th {
+			for seq, o := range cs.th[g].ops {
+				if o.kind == 2 {
+					add(o.f, g, seq)
+				}
+			}
+		}
+		obs.viol = append(obs.viol, c04checkNoise(i, lv.noise, want)...)
 	}
 	for j := range obs.recs {
 		for u, r := range obs.recs[j] {
@@ -622,8 +740,12 @@ func c04emit(c *Ctx, cs *c04Case, caseNo int) {
 	// a crash of the process (e.g. a panic in BufferedWriteSyncer's own flushLoop goroutine)
 	// cannot be recovered here: leave the case on disk for the parent process
 	if cur := os.Getenv("C04_CUR"); cur != "" {
-		_ = os.WriteFile(cur, []byte(fmt.Sprintf("%d\t%s\t%s", caseNo, cs.class, Render(L(L(cfg...), L(threads...), L())))), 0o644)
+		_ = os.WriteFile(cur, []byte(fmt.Sprintf("%d\t%s\t%s", caseNo, cs.class, Render(L(L(cfg...), L(threads...), L(), c04faultsSx(cs, c04Injected.Load()))))), 0o644)
 	}
+	// 4th component of the input: the error-path history of this case and the number of error-path
+	// events provoked in this process before it (model and spec do not look at it: C04_bystanders)
+	faults := c04faultsSx(cs, c04Injected.Load())
+	errsBefore := c04Injected.Load()
 	obs := c04run(cs, caseNo)
 	// observation + hints
 	hints := make([]SX, nb)
@@ -653,7 +775,7 @@ func c04emit(c *Ctx, cs *c04Case, caseNo int) {
 		}
 		hints[j] = LI(h)
 	}
-	input := L(L(cfg...), L(threads...), L(hints...))
+	input := L(L(cfg...), L(threads...), L(hints...), faults)
 	for _, v := range obs.viol {
 		c.Viol(v+" ["+cs.class+"]", input)
 	}
@@ -679,7 +801,8 @@ func c04emit(c *Ctx, cs *c04Case, caseNo int) {
 	}
 	c.Emit(input, L(ob...), map[string]string{"nt": nt, "class": cs.class, "g": fmt.Sprint(len(cs.th)),
 		"lines": fmt.Sprint(totalLines), "maxline": fmt.Sprint(maxLine), "bigger": big, "syncs": fmt.Sprint(syncOps), "ticks": fmt.Sprint(cs.ticks),
-		"refl": fmt.Sprintf("%d%d%v", cs.baseCtx, cs.sharedCtx, cs.usesRefl())})
+		"refl":  fmt.Sprintf("%d%d%v", cs.baseCtx, cs.sharedCtx, cs.usesRefl()),
+		"fault": cs.faultTag(), "errs_before": fmt.Sprint(errsBefore), "errs_in_case": fmt.Sprint(c04Injected.Load() - errsBefore)})
 	c.out.Flush()
 }
 
@@ -876,9 +999,22 @@ func c04(c *Ctx) {
 			break
 		}
 	}
+	// one corrupted pool shows in hundreds of runs: report the first direct observations, count the rest
+	// (every oracle rejection is still reported through the verdicts)
+	const maxDirect = 12
+	direct := 0
 	for _, ln := range side {
+		if strings.HasPrefix(ln, "!VIOL") {
+			direct++
+			if direct > maxDirect {
+				continue
+			}
+		}
 		c.out.WriteString(ln)
 		c.out.WriteByte('\n')
+	}
+	if direct > maxDirect {
+		fmt.Fprintf(c.out, "!INFO\tdirect_observations=%d (the first %d are reported)\n", direct, maxDirect)
 	}
 }
 
@@ -894,6 +1030,9 @@ func c04child(c *Ctx) {
 		cs.class = c04className(cs.br)
 		if cs.usesRefl() {
 			cs.class += "/refl"
+		}
+		if cs.hasFaults() {
+			cs.class += "/fault"
 		}
 		if caseNo >= from {
 			c04emit(c, cs, caseNo)
@@ -999,6 +1138,109 @@ func c04child(c *Ctx) {
 			}
 		}
 	}
+	// 1c. directed: error-path histories (c04_fault.go).  Some OTHER logger of the process (or a hidden
+	// branch of the judged tee, or the judged entries' own fields) takes a rare error path before and/or
+	// during the concurrent phase; the judged sinks must still receive every entry exactly once, intact.
+	fgrid := [][]c04Branch{
+		{{kind: c04Lock}},
+		{{kind: c04Combine, k: 2, console: true}},
+		{{kind: c04Open, k: 1}},
+		{{kind: c04Buf, size: 64}},
+		{{kind: c04LockBuf, size: 256, console: true}},
+		{{kind: c04Lock}, {kind: c04Buf, size: 96}, {kind: c04Lock, console: true}},
+	}
+	freps := 1
+	if c.Thorough {
+		freps = 10
+	}
+	writeKinds := []int{c04fkPlain, c04fkPlain, c04fkObj, c04fkRefl}
+	for rep := 0; rep < freps; rep++ {
+		for bi, br := range fgrid {
+			for _, n := range []int{2, 8} {
+				for mode := 0; mode < 10; mode++ {
+					bs := 64
+					for _, b := range br {
+						if b.size > 0 {
+							bs = b.size
+						}
+					}
+					ws := mode == 5 || mode == 9
+					cs := &c04Case{br: br, th: c04threads(r, n, 16, 1, bs, ws, 5000, 0)}
+					f := &cs.flt
+					v := rep + bi + n // varies the failing sink over the grid
+					switch mode {
+					case 0: // ONE sink write error of some other logger before the goroutines start, nothing else
+						f.logs = []c04FLog{{sink: []int{8, 0, 1, 5}[v%4]}}
+						f.pre = []c04FOp{{kind: c04fkPlain, lvl: zapcore.InfoLevel, size: 20}}
+						f.preLate = v%2 == 1
+					case 1: // prologue: every kind of fault op once, on every kind of failing sink
+						for sk := 0; sk < c04nFSinks; sk++ {
+							f.logs = append(f.logs, c04FLog{sink: sk, console: (sk+v)%3 == 0})
+						}
+						for k := 0; k < c04nFKinds; k++ {
+							f.pre = append(f.pre, c04FOp{fl: (k + v) % c04nFSinks, kind: k, lvl: zapcore.ErrorLevel, size: 12 + k})
+							f.pre = append(f.pre, c04FOp{fl: (k + v + 5) % c04nFSinks, kind: k, lvl: zapcore.InfoLevel, size: 40})
+						}
+					case 2: // a dedicated goroutine keeps hitting a failing sink during the concurrent phase
+						f.logs = []c04FLog{{sink: []int{0, 1, 2, 9}[v%4], console: v%2 == 0}}
+						ops := make([]c04FOp, 24)
+						for i := range ops {
+							ops[i] = c04genFOp(r, 1, writeKinds)
+						}
+						f.conc = [][]c04FOp{ops}
+					case 3: // the judged goroutines themselves hit a failing sink between their own log calls
+						f.logs = []c04FLog{{sink: []int{0, 1, 5, 3}[v%4]}, {sink: []int{8, 2, 9, 4}[v%4], console: true}}
+						c04inlineFaults(r, cs, 35, writeKinds)
+					case 4: // a failing branch hidden in the judged tee, first
+						f.tee, f.teeMode = 1, v%7
+					case 5: // a failing branch hidden in the judged tee, last, with Sync calls and ticks
+						f.tee, f.teeMode = 2, (v+3)%7
+						cs.ticks = 5
+					case 6: // no sink fails: failing marshalers / reflection failures / panicking Stringers and errors,
+						// in another logger (inline + dedicated goroutine) and in the judged entries themselves
+						f.logs = []c04FLog{{sink: 6, console: v%2 == 1, opts: 8 * (v % 2)}}
+						kinds := []int{c04fkObj, c04fkArr, c04fkRefl, c04fkStr, c04fkErr, c04fkInline, c04fkWith, c04fkAll}
+						c04inlineFaults(r, cs, 30, kinds)
+						ops := make([]c04FOp, 12)
+						for i := range ops {
+							ops[i] = c04genFOp(r, 1, kinds)
+						}
+						f.conc = [][]c04FOp{ops}
+						c04errFieldOps(r, cs, 50)
+					case 7: // failing BufferedWriteSyncer, panicking sink, panicking marshaler, DPanic/Panic level entries
+						f.logs = []c04FLog{{sink: 4}, {sink: 7, console: true}, {sink: 5, opts: 16 + 1}}
+						var ops []c04FOp
+						for i := 0; i < 18; i++ {
+							o := c04genFOp(r, 3, []int{c04fkPlain, c04fkPanicObj, c04fkSync, c04fkAll})
+							if i%3 == 0 {
+								o.lvl = []zapcore.Level{zapcore.DPanicLevel, zapcore.PanicLevel}[(i/3)%2]
+							}
+							ops = append(ops, o)
+						}
+						f.pre = ops[:4]
+						f.conc = [][]c04FOp{ops[4:]}
+					case 8: // caller + stacktrace, failing hook, failing ErrorOutput, failing With-context; large failing entries
+						f.logs = []c04FLog{{sink: v % c04nFSinks, opts: 1 + 2 + 4 + 8, console: v%2 == 0}, {sink: (v + 3) % c04nFSinks, opts: 1 + 2}}
+						for i := 0; i < 4; i++ {
+							o := c04genFOp(r, 2, c04allFKinds)
+							o.size = 600 * (i + 1)
+							f.pre = append(f.pre, o)
+						}
+						c04inlineFaults(r, cs, 20, c04allFKinds)
+					default: // everything at once, reflected contexts, Sync calls and ticks
+						cs.baseCtx = 1 + v%4
+						cs.sharedCtx = 1 + v%2
+						cs.callRefl = true
+						cs.th = c04threads(r, n, 12, 2, bs, ws, 5000, 2)
+						c04genFaults(r, cs)
+						f.tee, f.teeMode = 1+v%2, v%7
+						cs.ticks = 5
+					}
+					emit(cs)
+				}
+			}
+		}
+	}
 	// 2. seeded random configurations
 	N := 800
 	budget := 4000
@@ -1068,6 +1310,9 @@ func c04child(c *Ctx) {
 		}
 		if ws {
 			cs.ticks = r.Intn(20)
+		}
+		if r.Chance(35) {
+			c04genFaults(r, cs) // error-path history around (and inside) the judged loggers
 		}
 		emit(cs)
 	}
